@@ -49,8 +49,11 @@ V = Variant
 
 register(
     "C05",
-    lean_modules=["EventppVerif.Properties.C05"],
-    theorems=[],
+    lean_modules=["EventppVerif.Properties.C05", "EventppVerif.Properties.C08q"],
+    theorems=["Evp.Q." + t for t in ("C05_exactly_once", "C05_no_duplicates", "C05_exactly_once_runN", "C05_stored_not_consumed",
+              "C05_all_consumed", "C05_args_intact", "C05_args_intact_step", "C05_dispatch_args", "C05_pred_args", "C05_fifo",
+              "C05_queue_in_order", "C05_frame_in_order", "C05_enqueue_goes_to_queue", "C05_results", "C05_peek_take",
+              "C05_reachable_runN", "C08_never_stuck")],
     suites=[q_suite("queue", 300, 8000,
                     [V("single", 0, 0, 0, 0), V("multi", 1, 1, 1, 0)],
                     [V("single", 0, 0, 0, 0), V("multi", 1, 1, 1, 0), V("spin", 0, 1, 0, 0), V("single", 1, 0, 1, 0, std="c++11")],
